@@ -393,6 +393,73 @@ pub fn main(args: &[String]) -> i32 {
         let ge = JubjubExtended::generator();
         let pts: Vec<(i64, JubjubExtended)> = DLOGS.iter().map(|k| (*k, ge * scalar_i::<JubFr>(*k))).collect();
         codec::<JubjubExtended, JubjubAffine>(&mut log, &pts, &to_j, true);
+        // points outside the prime-order subgroup (cofactor 8): the points of order 2, 4 and 8 and their sums with subgroup
+        // points; group law, predicates, cofactor clearing, and the decoders of the three point types
+        {
+            use group::cofactor::CofactorGroup;
+            use midnight_curves::Fq as Base;
+            let minus_one = -Base::ONE;
+            let i4: Base = Option::<Base>::from(minus_one.sqrt()).expect("-1 is a square in the Jubjub base field");
+            let t2 = JubjubExtended::from(JubjubAffine::from_raw_unchecked(Base::ZERO, minus_one));
+            let t4 = JubjubExtended::from(JubjubAffine::from_raw_unchecked(i4, Base::ZERO));
+            // the torsion part of a point outside the subgroup: P - [1/8]([8] P)
+            let eight_inv: JubFr = Option::<JubFr>::from(JubFr::from(8u64).invert()).unwrap();
+            let mut t8 = None;
+            for y in 2u64..60 {
+                let mut b = [0u8; 32];
+                b[0] = y as u8;
+                if let Some(p) = Option::<JubjubAffine>::from(JubjubAffine::from_bytes(b)) {
+                    let p = JubjubExtended::from(p);
+                    let t = p - p.mul_by_cofactor() * eight_inv;
+                    if !bool::from(t.double().double().is_identity()) {
+                        t8 = Some(t);
+                        break;
+                    }
+                }
+            }
+            let mut tors = vec![t2, t4, t2 + t4];
+            if let Some(t) = t8 {
+                tors.push(t);
+                tors.push(t + t2);
+            }
+            let subs = [ge, ge * scalar_i::<JubFr>(5), JubjubExtended::identity()];
+            let mut mixed: Vec<JubjubExtended> = tors.clone();
+            for t in tors.iter() {
+                for s_ in subs.iter().take(2) {
+                    mixed.push(*t + *s_);
+                }
+            }
+            for p in mixed.iter() {
+                let ins = vec![to_j(p)];
+                log.op("double", ins.clone(), vec![], || to_j(&p.double()));
+                log.op("neg", ins.clone(), vec![], || to_j(&(-*p)));
+                log.op("mul_by_cofactor", ins.clone(), vec![], || to_j(&p.mul_by_cofactor()));
+                log.op("clear_cofactor", ins.clone(), vec![], || to_j(&p.clear_cofactor().into()));
+                log.op("torsion_flags", ins.clone(), vec![], || {
+                    json!({"small_order":bool::from(p.is_small_order()),"torsion_free":bool::from(p.is_torsion_free()),"prime_order":bool::from(p.is_prime_order()),
+                        "into_subgroup":Option::<JubjubSubgroup>::from(CofactorGroup::into_subgroup(*p)).is_some()})
+                });
+                for s in scalar_menu(&r).iter().take(5) {
+                    let sv: JubFr = s_of_big(s);
+                    log.op("mul", ins.clone(), vec![s.clone()], || to_j(&(*p * sv)));
+                }
+                for q in mixed.iter().step_by(2).chain(subs.iter()) {
+                    let ins = vec![to_j(p), to_j(q)];
+                    log.op("add", ins.clone(), vec![], || to_j(&(*p + *q)));
+                    log.op("add", ins.clone(), vec![], || to_j(&(*p + q.to_affine())));
+                    log.op("sub", ins.clone(), vec![], || to_j(&(*p - *q)));
+                    log.op("eq", ins.clone(), vec![], || json!(p == q));
+                }
+                // decoders: the extended / affine types take any curve point, the subgroup type only subgroup points
+                let bytes = p.to_bytes();
+                log.op("decode_outside", ins.clone(), vec![], || {
+                    let e: Option<JubjubExtended> = JubjubExtended::from_bytes(&bytes).into();
+                    let a: Option<JubjubAffine> = <JubjubAffine as GroupEncoding>::from_bytes(&bytes).into();
+                    let s_: Option<JubjubSubgroup> = JubjubSubgroup::from_bytes(&bytes).into();
+                    json!({"extended":e.map(|e| to_j(&e)),"affine":a.map(|a| to_j(&JubjubExtended::from(a))),"subgroup_accepts":s_.is_some()})
+                });
+            }
+        }
     }
     if which == "all" || which == "curve25519" {
         let mut log = Log { out: &mut out, curve: "curve25519" };
